@@ -17,6 +17,7 @@ pub enum Family {
     C12,
     C13,
     C14,
+    C15,
     C16,
 }
 
@@ -33,6 +34,7 @@ impl Family {
             "C12" => Family::C12,
             "C13" => Family::C13,
             "C14" => Family::C14,
+            "C15" => Family::C15,
             "C16" => Family::C16,
             _ => return None,
         })
@@ -49,6 +51,7 @@ impl Family {
             Family::C12 => "C12",
             Family::C13 => "C13",
             Family::C14 => "C14",
+            Family::C15 => "C15",
             Family::C16 => "C16",
         }
     }
@@ -65,6 +68,7 @@ pub const ALL_FAMILIES: &[Family] = &[
     Family::C12,
     Family::C13,
     Family::C14,
+    Family::C15,
     Family::C16,
 ];
 
@@ -80,6 +84,7 @@ pub fn generate(f: Family, ch: &mut Choices) -> Plan {
         Family::C12 => gen_c12(ch),
         Family::C13 => gen_outbound(OutKind::C13, ch),
         Family::C14 => gen_outbound(OutKind::C14, ch),
+        Family::C15 => gen_c15(ch),
         Family::C16 => gen_c16(ch),
     }
 }
@@ -140,6 +145,7 @@ pub fn base_plan(family: &'static str, role: Role, ch: &mut Choices) -> Plan {
         },
         senders: Vec::new(),
         p_immediate: 0,
+        p_hold: 0,
         w_outcome: [1, 0, 0],
         w_payload: [1, 0, 0],
         w_proto: [1, 0, 0],
@@ -150,6 +156,7 @@ pub fn base_plan(family: &'static str, role: Role, ch: &mut Choices) -> Plan {
         max_steps: 6000,
         horizon_ms: 2_500,
         conns: 1,
+        tags: Vec::new(),
     }
 }
 
@@ -617,6 +624,7 @@ fn gen_c07(ch: &mut Choices) -> Plan {
     plan.cfg.ctl_gated = ch.chance(1, 2);
     plan.w_ctl = *ch.pick(&[[1u32, 0, 0], [2, 1, 1]]);
     plan.p_immediate = *ch.pick(&[0u32, 300, 1000]);
+    plan.p_hold = *ch.pick(&[0u32, 0, 300]);
     plan.w_payload = *ch.pick(&[[1u32, 0, 0], [2, 2, 1]]);
     plan.cfg.min_chunk = *ch.pick(&[0u32, 16, 32 * 1024]);
     plan.cfg.max_payload_buf = *ch.pick(&[32 * 1024usize, 64]);
@@ -763,6 +771,178 @@ fn gen_c07(ch: &mut Choices) -> Plan {
             plan.peer.script.insert(at, step(Pkt::Disconnect(rc::Disconnect { code, props: Vec::new() }), ver, Pre::Connected));
         }
         _ => {} // nothing special: the closing FIN of the run ends the connection
+    }
+    plan.ending = Ending::SettleThenFin;
+    plan.max_steps = 12_000;
+    plan
+}
+
+
+// ------------------------------------------------------------------------------------------
+// C15: MQTT 5 DISCONNECT - at most once, never after the peer's, names the cause
+
+fn gen_c15(ch: &mut Choices) -> Plan {
+    let role = if ch.chance(2, 3) { Role::S5 } else { Role::C5 };
+    let ver = Ver::V5;
+    let mut plan = base_plan("C15", role, ch);
+    plan.cfg.use_router = false;
+    plan.cfg.ctl_gated = ch.chance(1, 2);
+    plan.w_ctl = *ch.pick(&[[1u32, 0, 0], [1, 1, 0], [2, 1, 1]]);
+    plan.p_immediate = *ch.pick(&[0u32, 500, 1000]);
+    plan.cfg.max_topic_alias = 4;
+    plan.cfg.min_chunk = *ch.pick(&[32 * 1024u32, 0, 16]);
+    // some ordinary traffic first
+    let n_in = ch.choose(3);
+    for i in 0..n_in {
+        let qos = ch.choose(2) as u8;
+        let pid = if qos > 0 { Some(10 + i as u16) } else { None };
+        let mut p = mk_publish(ver, ch, i, qos, pid, 2);
+        p.dup = false;
+        p.retain = false;
+        plan.peer.script.push(step(Pkt::Publish(p), ver, Pre::Connected));
+    }
+    // 1..3 close initiators, in a random order
+    let n_init = 1 + ch.weighted(&[50, 35, 15]);
+    let server = role.is_server();
+    for k in 0..n_init as u32 {
+        let at = ch.choose(plan.peer.script.len() as u32 + 1) as usize;
+        match ch.choose(if server { 13 } else { 9 }) {
+            0 => {
+                // application closes
+                let op = match ch.choose(4) {
+                    0 => AppOp::Close,
+                    1 => AppOp::CloseReason(*ch.pick(&[0x8bu8, 0x00, 0x98])),
+                    2 => AppOp::CloseNoReason,
+                    _ => AppOp::ForceClose,
+                };
+                plan.tags.push(format!("inject:app-{op:?}"));
+                let mut ops = vec![op];
+                if ch.chance(1, 3) {
+                    ops.push(AppOp::Close);
+                }
+                plan.senders.push(ops);
+            }
+            1 => {
+                // protocol handler asks to disconnect (needs a request that reaches it)
+                plan.w_proto = [1, 2, 0];
+                plan.tags.push("inject:proto-disconnect".into());
+                let p = if server {
+                    Pkt::Subscribe(rc::Subscribe { pid: 40 + k as u16, props: Vec::new(), filters: vec![(format!("f/{k}"), 1)] })
+                } else {
+                    // the client's protocol handler sees publishes it has no resource for
+                    Pkt::Publish(mk_publish(ver, ch, 60 + k, 1, Some(60 + k as u16), 2))
+                };
+                plan.peer.script.insert(at, step(p, ver, Pre::Connected));
+            }
+            2 => {
+                // handler failure
+                plan.w_outcome = [1, 0, 2];
+                plan.tags.push("inject:handler-error".into());
+                let p = mk_publish(ver, ch, 70 + k, 1, Some(70 + k as u16), 2);
+                plan.peer.script.insert(at, step(Pkt::Publish(p), ver, Pre::Connected));
+            }
+            3 => {
+                // peer DISCONNECT, with or without a session expiry
+                let mut props: Props = Vec::new();
+                let mut what = "inject:peer-disconnect";
+                if server && ch.chance(1, 3) {
+                    // session expiry on DISCONNECT after a zero one in CONNECT is a protocol error
+                    props.push((17, PropVal::U32(30)));
+                    what = "inject:peer-disconnect-bad-expiry";
+                }
+                plan.tags.push(what.into());
+                let code = *ch.pick(&[0u8, 0x04, 0x81]);
+                plan.peer.script.insert(at, step(Pkt::Disconnect(rc::Disconnect { code, props }), ver, Pre::Connected));
+                // a client that said goodbye says nothing more
+                plan.peer.script.truncate(at + 1);
+            }
+            4 => {
+                // unknown topic alias -> 0x94
+                let len = *ch.pick(&[2usize, 300]);
+                let mut p = mk_publish(ver, ch, 80 + k, 0, None, len);
+                p.topic = String::new();
+                p.props.retain(|(id, _)| *id != 35);
+                p.props.push((35, PropVal::U16(3)));
+                plan.tags.push("inject:unknown-alias:0x94".into());
+                plan.peer.script.insert(at, step(Pkt::Publish(p), ver, Pre::Connected));
+            }
+            5 => {
+                // packet too large -> 0x95
+                if server {
+                    plan.cfg.max_size = 120;
+                } else {
+                    plan.cfg.client_max_packet_size = Some(120);
+                }
+                let p = mk_publish(ver, ch, 81 + k, 0, None, 300);
+                plan.tags.push("inject:too-large:0x95".into());
+                plan.peer.script.insert(at, step(Pkt::Publish(p), ver, Pre::Connected));
+            }
+            6 => {
+                // receive maximum exceeded -> 0x93
+                if server {
+                    plan.cfg.max_receive = 1;
+                } else {
+                    plan.cfg.client_receive_max = 1;
+                }
+                plan.p_immediate = 0;
+                let a = mk_publish(ver, ch, 82, 1, Some(82), 2);
+                let len = *ch.pick(&[2usize, 300]);
+                let b = mk_publish(ver, ch, 83, 1, Some(83), len);
+                plan.tags.push("inject:receive-maximum:0x93".into());
+                plan.peer.script.insert(at, step(Pkt::Publish(b), ver, Pre::Connected));
+                plan.peer.script.insert(at, step(Pkt::Publish(a), ver, Pre::Connected));
+            }
+            7 => {
+                // keep-alive timeout -> 0x8D: the peer goes silent
+                if server {
+                    plan.peer.connect.keep_alive = 1;
+                } else {
+                    plan.cfg.client_keepalive_s = 1;
+                    plan.peer.auto_ack = false;
+                }
+                plan.horizon_ms = 9_000;
+                plan.tags.push("inject:keep-alive:0x8d".into());
+            }
+            8 => {
+                // control-path error: a second CONNECT / a CONNACK to a client
+                let p = if server { Pkt::Connect(Connect::new(ver, "c0", 60_000)) } else { Pkt::ConnAck(rc::ConnAck { session_present: false, code: 0, props: Vec::new() }) };
+                plan.tags.push("inject:violation".into());
+                plan.peer.script.insert(at, step(p, ver, Pre::Connected));
+            }
+            9 => {
+                // QoS not supported -> 0x9B
+                plan.cfg.max_qos = 0;
+                plan.cfg.hs_max_qos = None;
+                let p = mk_publish(ver, ch, 84 + k, 1, Some(84), 2);
+                plan.tags.push("inject:qos-not-supported:0x9b".into());
+                plan.peer.script.insert(at, step(Pkt::Publish(p), ver, Pre::Connected));
+            }
+            10 => {
+                // retain not supported -> 0x9A
+                plan.cfg.hs_retain_available = Some(false);
+                let mut p = mk_publish(ver, ch, 85 + k, 0, None, 2);
+                p.retain = true;
+                plan.tags.push("inject:retain-not-supported:0x9a".into());
+                plan.peer.script.insert(at, step(Pkt::Publish(p), ver, Pre::Connected));
+            }
+            11 => {
+                // subscription identifiers not supported -> 0xA1
+                plan.cfg.hs_sub_ids_available = Some(false);
+                let p = Pkt::Subscribe(rc::Subscribe { pid: 45, props: vec![(11, PropVal::VarInt(5))], filters: vec![("f/x".into(), 1)] });
+                plan.tags.push("inject:sub-ids-not-supported:0xa1".into());
+                plan.peer.script.insert(at, step(p, ver, Pre::Connected));
+            }
+            _ => {
+                // undecodable bytes
+                let (bytes, what) = undecodable(ch);
+                plan.tags.push("inject:undecodable".into());
+                plan.peer.script.insert(at, PeerStep { pre: Pre::Connected, bytes, pkt: None, corrupt: Some(what.to_string()), then_close: None });
+            }
+        }
+    }
+    // some outbound traffic so that responses and the DISCONNECT compete for the wire
+    if ch.chance(1, 2) {
+        plan.senders.push(vec![AppOp::PubQ1 { len: 3, pid: None }, AppOp::PubQ0 { len: 2 }]);
     }
     plan.ending = Ending::SettleThenFin;
     plan.max_steps = 12_000;
